@@ -795,3 +795,10 @@ impl fmt::Debug for IdleTimeout {
         self.0.fmt(f)
     }
 }
+
+#[cfg(feature = "__verif-hooks")]
+#[allow(missing_docs, unreachable_pub, dead_code, unused_imports, unused_qualifications)]
+pub mod verif {
+    use super::*;
+    include!(concat!(env!("QUINN_VERIF_HOOKS"), "/proto/config/transport.rs"));
+}
